@@ -40,6 +40,8 @@ class SpecFn:
         self.pyfn, self.arg_tys, self.res_ty, self.node, self.globs = pyfn, arg_tys, res_ty, node, globs
         self.name = pyfn.__name__
         self.z = z3.Function("spec_" + self.name, *[t.sort() for t in arg_tys], res_ty.sort())
+        # a spec function that does not call itself is a macro: always expanded, no fuel needed
+        self.recursive = any(isinstance(x, ast.Name) and x.id == self.name for x in ast.walk(node))
 
 
 class Frame:
@@ -48,6 +50,7 @@ class Frame:
         self.loop_ordinal = 0
         self.loop_k = []  # stack of ghost iteration counters
         self.yielded = None  # SV seq for generators
+        self.locals_declared = set()  # names assigned somewhere in the function (unbound until then)
         self.cellvars = {}
 
 
@@ -62,6 +65,8 @@ class Exec:
         self.fuel = 1
         self.unfolded = set()
         self.prefix = ""
+        self.line0 = 0
+        self.semantic_prune = False
         self.call_depth = 0
 
     # ------------------------------------------------------------------ utilities
@@ -71,7 +76,7 @@ class Exec:
     def oblige(self, kind, goal, node=None, tag=""):
         if self.spec_mode:
             return
-        name = f"{self.prefix}/{kind}{tag}@L{getattr(node, 'lineno', 0)}"
+        name = f"{self.prefix}/{kind}{tag}@+{getattr(node, 'lineno', self.line0) - self.line0}"
         self.p.oblige(name, kind, goal, self.where(node) if node is not None else "")
 
     def truth(self, v):
@@ -149,8 +154,10 @@ class Exec:
         if n.id in fr.env:
             v = fr.env[n.id]
             if isinstance(v, _Unbound):
-                raise OutOfSubset(f"read of unbound local {n.id}")
+                raise _Raise("UnboundLocalError")
             return v
+        if n.id in fr.locals_declared:
+            raise _Raise("UnboundLocalError")
         return self.w.global_value(n.id, fr.globals)
 
     def e_Attribute(self, n, fr):
@@ -217,6 +224,17 @@ class Exec:
         if isinstance(c, bool):
             return self.eval(n.body if c else n.orelse, fr)
         if self.spec_mode:
+            kv = self.p.known_value(c)
+            if kv is None and self.semantic_prune:
+                # ask the solver whether the path condition already decides the test
+                if not self.p.feasible(c):
+                    kv = False
+                elif not self.p.feasible(z3.Not(c)):
+                    kv = True
+                if kv is not None:
+                    self.p.note_known(c, kv)
+            if kv is not None:  # the path already decided this test: expand only that side
+                return self.eval(n.body if kv else n.orelse, fr)
             a = self.eval(n.body, fr)
             b = self.eval(n.orelse, fr)
             a2, b2 = self.unify(a, b)
@@ -255,8 +273,18 @@ class Exec:
             zs = []
             for e in n.values:
                 t = self.truth(self.eval(e, fr))
-                zs.append(z3.BoolVal(t) if isinstance(t, bool) else t)
-            return SV(z3.And(*zs) if is_and else z3.Or(*zs), BOOL)
+                if not isinstance(t, bool):
+                    kv = self.p.known_value(t)
+                    if kv is not None:
+                        t = kv
+                if isinstance(t, bool):
+                    if t != is_and:  # False in an `and` / True in an `or` decides it
+                        return t
+                    continue
+                zs.append(t)
+            if not zs:
+                return is_and
+            return SV(z3.And(*zs) if is_and else z3.Or(*zs), BOOL) if len(zs) > 1 else SV(zs[0], BOOL)
         v = None
         for e in n.values:
             v = self.eval(e, fr)
@@ -535,6 +563,14 @@ class Exec:
 
     # ---- calls
     def e_Call(self, n, fr):
+        if isinstance(n.func, ast.Name) and n.func.id == "unfold" and self.spec_mode:
+            # hint form unfold(f(args)): instantiate the defining equation of f at these arguments
+            saved = self.fuel
+            self.fuel = max(1, saved)
+            try:
+                return self.eval(n.args[0], fr)
+            finally:
+                self.fuel = saved
         # method calls on places need the un-evaluated receiver (write-back)
         if isinstance(n.func, ast.Attribute) and n.func.attr in MUTATORS | {"count", "copy", "index"}:
             place = self.place(n.func.value, fr, for_method=True)
